@@ -111,6 +111,10 @@ def modest(model, max_drop=0.3):
                     vin = v[p]
                     break
             if vin == 0.0:
+                if k in LOADS or any(m.kind(d) in LOADS for d in m.descendants(n)):
+                    # a dead branch that feeds loads: 'a modest fraction of
+                    # its input' means nothing at 0 V, the clause does not apply
+                    return False
                 continue
             if k in ("RLoss", "VLoss", "PSwitch", "PMux", "Rectifier"):
                 if v[n] == 0.0:
